@@ -39,6 +39,20 @@ pub fn apply(lib: &Library) -> SemanticResult {
     Ok(())
 }
 
+/// Returns true if a is strictly less than b. The comparison uses the sign
+/// and magnitude so that it is defined for every value the parser accepts
+/// (a magnitude can be larger than the largest i128).
+fn is_less(a: &SignedInteger, b: &SignedInteger) -> bool {
+    let a_neg = a.is_neg && a.value.value != 0;
+    let b_neg = b.is_neg && b.value.value != 0;
+    match (a_neg, b_neg) {
+        (false, false) => a.value.value < b.value.value,
+        (true, true) => a.value.value > b.value.value,
+        (true, false) => true,
+        (false, true) => false,
+    }
+}
+
 struct RuleDeclSubrangeLimits {
     diagnostics: Vec<Diagnostic>,
 }
@@ -47,10 +61,7 @@ impl Visitor<Diagnostic> for RuleDeclSubrangeLimits {
     type Value = ();
 
     fn visit_subrange(&mut self, node: &Subrange) -> Result<(), Diagnostic> {
-        let minimum: i128 = node.start.clone().try_into().expect("Value in range i128");
-        let maximum: i128 = node.end.clone().try_into().expect("Value in range i128");
-
-        if minimum >= maximum {
+        if !is_less(&node.start, &node.end) {
             self.diagnostics.push(
                 Diagnostic::problem(
                     Problem::SubrangeMinStrictlyLessMax,
